@@ -2,6 +2,14 @@ import argparse, importlib, json, os, sys, traceback
 from . import core
 
 
+def _frames(s, pid):
+    """frame conditions of the contracts (contracts/frame_contracts.py): one obligation per Python file the property is anchored in"""
+    if pid == "C14":
+        return          # C14 carries the frame obligations of 15 files itself
+    from contracts import frame_contracts
+    frame_contracts.add(s, pid)
+
+
 def main(argv=None):
     ap = argparse.ArgumentParser(prog="check")
     ap.add_argument("pid")
@@ -28,6 +36,7 @@ def main(argv=None):
         s.keep_replays = True
         try:
             mod.run(s)
+            _frames(s, a.pid)
         except Exception:
             s.crashed.append(("run", traceback.format_exc()[-3000:]))
         again = [(n, p, suf) for n, p, suf in s.violations if n == want]
@@ -39,6 +48,7 @@ def main(argv=None):
     s = core.Session(a.pid, a.tier, seed, level=getattr(mod, "LEVEL", "proof"))
     try:
         mod.run(s)
+        _frames(s, a.pid)
     except Exception:
         s.crashed.append(("run", traceback.format_exc()[-3000:]))
     return s.finish(explanation=getattr(mod, "EXPLANATION", ""))
